@@ -96,12 +96,30 @@ func (r *Run) writesOfField(rule string, fv *types.Var) []fieldWrite {
 		for pi := range paths {
 			path := &paths[pi]
 			r.at(path)
+			var stack []*Func // looked-into functions enclosing the current event
+			markInlined := func() {
+				for _, f := range stack {
+					if f != nil {
+						seenInlined[f] = true
+					}
+				}
+			}
 			for i, ev := range path.Events {
 				efn := ev.Fn
 				if efn == nil {
 					efn = fn
 				}
 				switch ev.Kind {
+				case EvEnter:
+					var tf *Func
+					if ev.Helper && ev.Target != nil {
+						tf = r.P.Funcs[ev.Target]
+					}
+					stack = append(stack, tf)
+				case EvExit:
+					if len(stack) > 0 {
+						stack = stack[:len(stack)-1]
+					}
 				case EvAssign:
 					if ev.Tok != token.ASSIGN && ev.Tok != token.DEFINE {
 						continue
@@ -124,9 +142,7 @@ func (r *Run) writesOfField(rule string, fv *types.Var) []fieldWrite {
 						}
 						out = append(out, w)
 						found = true
-						if efn.origOrSelf() != fn {
-							seenInlined[efn.origOrSelf()] = true
-						}
+						markInlined()
 					}
 				case EvDelete:
 					f, keys := r.baseField(efn, path, i, ev.Call.Args[0])
@@ -140,9 +156,7 @@ func (r *Run) writesOfField(rule string, fv *types.Var) []fieldWrite {
 					w.Keys = append(w.Keys, r.P.Canon(efn, ev.Call.Args[1]))
 					out = append(out, w)
 					found = true
-					if efn.origOrSelf() != fn {
-						seenInlined[efn.origOrSelf()] = true
-					}
+					markInlined()
 				}
 			}
 		}
@@ -153,7 +167,7 @@ func (r *Run) writesOfField(rule string, fv *types.Var) []fieldWrite {
 	var keep []fieldWrite
 	for _, w := range out {
 		top := w.Top
-		if top.Obj != nil && !top.Obj.Exported() && direct[top] && !r.attributed(top)[top.Name] {
+		if top.Obj != nil && r.P.isGlue(top.Obj) && !r.attributed(top)[top.Name] {
 			if !seenInlined[top] {
 				r.Undecide(rule, "writes of %s.%s inside the unexported helper %s were not seen in the context of its callers", ownerName(fv), fv.Name(), top.Name)
 			}
